@@ -341,6 +341,12 @@ def edge_inputs():
     for k in range(495, 506):
         for hi in (255, 256, 999):
             yield b",".join([b"%d" % hi] * k) + b" -bxor 7"
+    # wide-character runs chained through every NUL gap (odd gaps shift the alignment of what follows), 6-8 characters each
+    runs = [bytes(x for c in w for x in (c, 0)) for w in (b"AAAAAA", b"BBBBBBB", b"cccccccc", b"d\xe9j\xe0 vu!")]
+    for gaps in itertools.product(range(0, 8), repeat=2):
+        for trio in ((0, 1, 2), (1, 2, 3), (3, 1, 1), (2, 0, 1)):
+            for lead in (b"", b"\x00", b"x"):
+                yield lead + runs[trio[0]] + b"\x00" * gaps[0] + runs[trio[1]] + b"\x00" * gaps[1] + runs[trio[2]]
 
 
 def run_edges(ctx, shard, nshards, seed, budget):
